@@ -33,8 +33,11 @@ import (
 	"path/filepath"
 	"strconv"
 	"strings"
+	"time"
 
 	vc "verifcommon"
+
+	"github.com/xelaj/mtproto/verifharness/refserver"
 )
 
 var kinds = []string{"obj", "bool", "vecbare", "vecobj", "err"}
@@ -217,6 +220,18 @@ func (r *run) epilogue(w *traceWriter, idx int) {
 		r.lock = "" // (an error return releases the send lock; if it does not, the probe shows it)
 	}
 	r.lastClass = "request-after-a-failed-write-in-the-reconnect-window(window request: " + windowResult + ")"
+	if (idx/3)%2 == 0 {
+		// the server announces the session it has just created for the new connection, as a real one does: its
+		// first_msg_id lies above everything the client issued before - the request that failed in the window included
+		sid := r.srv.NextMsgID(true)
+		body := refserver.NewSessionCreated((time.Now().Unix()+10)<<32, 78, r.srv.Salt())
+		r.sent = append(r.sent, sentMsg{sid: sid, seq: 1, class: "new_session_created", atFrames: r.nframes})
+		if err := r.srv.Send(refserver.Msg{MsgID: sid, SeqNo: 1, Body: body}); err != nil {
+			trouble("server send: %v", err)
+		}
+		r.runEnabled()
+		r.lastClass += "+new_session_created-for-the-new-connection"
+	}
 	r.probe()
 	r.out.line("G", strconv.Itoa(idx), "window="+windowResult)
 }
